@@ -144,7 +144,7 @@ def gen_world(rng, nsteps):
 def cases(ctx):
     rng = ctx.rng
     out = []
-    for h in range(ctx.scale(120, 1500)):
+    for h in range(ctx.scale(400, 4000)):
         init, ops = gen_world(rng, rng.randrange(5, 26))
         out.append({'op': 'world', 'objs': init, 'ops': ops, 'family': 'history'})
     return out
